@@ -153,7 +153,7 @@ func (g *docGen) mediaList() any {
 	var l jx.Arr
 	for i := 0; i < n; i++ {
 		m := Pick(g.rng, mediaTypes)
-		if !seen[m] {
+		if !seen[m] || g.rng.IntN(3) == 0 { // the same media type may be listed twice: the answers are sets, the document is not touched
 			seen[m] = true
 			l = append(l, m)
 		}
